@@ -399,4 +399,301 @@ theorem loop_spec (env : Env) (o : Opts) (run : Nat → St → St × Outcome) (h
       · simp only [List.getLast?_cons_of_ne_nil hne] ; exact ih4
       · intro e' he'; simp [ih7 e' he']
 
+/-! ### nested use: while a session is open, nothing below commits or rolls back -/
+
+theorem enter_inner (o : Opts) (s : St) (hs : s.session.isSome = true) :
+    (∃ e, enter o s = .error e) ∨ enter o s = .ok { s with counter := s.counter + 1 } := by
+  unfold enter
+  cases hss : s.session with
+  | none => rw [hss] at hs; cases hs
+  | some cur =>
+    dsimp only
+    split
+    · exact .inl ⟨_, rfl⟩
+    · split
+      · exact .inl ⟨_, rfl⟩
+      · exact .inr rfl
+
+theorem cm_inner (env : Env) (o : Opts) (run : St → St × Outcome) (hr : InnerOK run) : InnerOK (cm env o run) := by
+  intro s hc hs
+  unfold cm
+  split
+  · exact Preserves.refl s
+  · rcases enter_inner o s hs with ⟨e, he⟩ | he
+    · rw [he]; exact Preserves.refl s
+    · rw [he]
+      dsimp only
+      have hp := hr { s with counter := s.counter + 1 } (by simp; omega) (by simpa using hs)
+      rw [exit_inner env o _ _ (by rw [hp.counter]; simp; omega)]
+      obtain ⟨ws, hws⟩ := hp.pending
+      exact ⟨by simp [hp.counter], by simp [hp.session], by simp [hp.committed], by simp [hp.ncommit], ⟨ws, by simpa using hws⟩⟩
+
+theorem decorated_inner (env : Env) (o : Opts) (run : Nat → St → St × Outcome) (hr : InnerOK (run 0)) :
+    InnerOK (fun s => ((decorated env o run s).st, (decorated env o run s).out)) := by
+  intro s hc hs
+  have hne : s.counter ≠ 0 := by omega
+  simp only [decorated, hne, ne_eq, not_false_eq_true, if_true]
+  split
+  · exact Preserves.refl s
+  · exact hr s hc hs
+
+theorem iterGen_inner (env : Env) (o : Opts) (steps : List (Seg × Resume)) : InnerOK (iterGen env o steps) := by
+  intro s hc hs
+  unfold iterGen
+  split
+  · exact Preserves.refl s
+  · cases steps with
+    | nil => exact Preserves.refl s
+    | cons st rest =>
+      obtain ⟨seg, r⟩ := st
+      simp only [iterLoop, wrappedInteract, hs, if_true]
+      exact Preserves.refl s
+
+theorem flask_inner (env : Env) (hooked : Bool) (view : St → St × Outcome) (hr : InnerOK view) :
+    InnerOK (flaskRequest env hooked view) := by
+  intro s hc hs
+  unfold flaskRequest
+  cases hooked with
+  | false =>
+    simp only [Bool.false_eq_true, if_false, flaskExit]
+    exact hr s hc hs
+  | true =>
+    have he : enter (defaultOpts env) s = .ok { s with counter := s.counter + 1 } := by
+      unfold enter
+      cases hss : s.session with
+      | none => rw [hss] at hs; cases hs
+      | some cur => simp [defaultOpts]
+    simp only [if_true, flaskEnter, ne_eq]
+    have h0 : (defaultOpts env).retry = 0 := rfl
+    simp only [h0, not_true_eq_false, if_false, he, flaskExit]
+    have hp := hr { s with counter := s.counter + 1 } (by simp; omega) (by simpa using hs)
+    rw [exit_inner env _ _ _ (by rw [hp.counter]; simp; omega)]
+    obtain ⟨ws, hws⟩ := hp.pending
+    exact ⟨by simp [hp.counter], by simp [hp.session], by simp [hp.committed], by simp [hp.ncommit], ⟨ws, by simpa using hws⟩⟩
+
+theorem exec_inner (env : Env) (p : Prog) : InnerOK (exec env p) := by
+  induction p with
+  | skip => intro s _ _; exact Preserves.refl s
+  | write w =>
+    intro s _ hs
+    simp only [exec, hs, if_true, addWrites]
+    exact ⟨rfl, rfl, rfl, rfl, ⟨[w], rfl⟩⟩
+  | mark n => intro s _ _; exact ⟨rfl, rfl, rfl, rfl, ⟨[], by simp [exec]⟩⟩
+  | observe =>
+    intro s _ hs
+    simp only [exec, hs, if_true]
+    exact ⟨rfl, rfl, rfl, rfl, ⟨[], by simp⟩⟩
+  | raise e => intro s _ _; exact Preserves.refl s
+  | seq a b iha ihb =>
+    intro s hc hs
+    have h1 := iha s hc hs
+    simp only [exec]
+    rcases hr : exec env a s with ⟨s1, o1⟩
+    rw [hr] at h1
+    cases o1 with
+    | ret =>
+      dsimp only
+      exact h1.trans (ihb s1 (by rw [h1.counter]; exact hc) (by rw [h1.session]; exact hs))
+    | raise e => exact h1
+  | tryCatch p c h ihp ihh =>
+    intro s hc hs
+    have h1 := ihp s hc hs
+    simp only [exec]
+    rcases hr : exec env p s with ⟨s1, o1⟩
+    rw [hr] at h1
+    cases o1 with
+    | ret => exact h1
+    | raise e =>
+      dsimp only
+      split
+      · exact h1.trans (ihh s1 (by rw [h1.counter]; exact hc) (by rw [h1.session]; exact hs))
+      · exact h1
+  | withSession o p ih => exact cm_inner env o _ ih
+  | call o f ih => exact decorated_inner env o _ (ih 0)
+  | iter o steps => exact iterGen_inner env o steps
+  | flask hooked view ih => exact flask_inner env hooked _ ih
+
+/-! ### generator functions -/
+
+/-- which of the segment's writes one step of a wrapped generator commits (n = number of real commits so far) -/
+def stepCommits (env : Env) (n : Nat) (seg : Seg) : Resume → List Write
+  | .next =>
+    if seg.manualCommit then
+      if commitOK env n seg.writes then
+        seg.writes ++ (if seg.fin = .ret ∧ commitOK env (if seg.writes = [] then n else n + 1) seg.late then seg.late else [])
+      else []
+    else if seg.fin = .ret ∧ commitOK env n (seg.writes ++ seg.late) then seg.writes ++ seg.late else []
+  | _ => []
+
+/-- what one step of a wrapped generator produces -/
+def stepOutSpec (env : Env) (n : Nat) (seg : Seg) : Resume → StepOut
+  | .close => .raised .generatorExit
+  | .throw e => .raised e
+  | .next =>
+    match (if seg.manualCommit then commitErr env n seg.writes else none) with
+    | some e => .raised e
+    | none =>
+      let n' := if seg.manualCommit ∧ seg.writes ≠ [] then n + 1 else n
+      let rest := if seg.manualCommit then seg.late else seg.writes ++ seg.late
+      match seg.fin with
+      | .raise e => .raised e
+      | .ret => (match commitErr env n' rest with | none => .stopped | some e => .raised e)
+      | .yield => if rest ≠ [] then .raised .genSuspendDirty else .yielded
+
+theorem step_spec (env : Env) (o : Opts) (seg : Seg) (resume : Resume) (s : St) (hc : Clean s) :
+    Clean (wrappedInteract env o seg resume [] s).1 ∧
+    (wrappedInteract env o seg resume [] s).2.1 = [] ∧
+    (wrappedInteract env o seg resume [] s).1.trace = s.trace ∧
+    (wrappedInteract env o seg resume [] s).1.committed = s.committed ++ stepCommits env s.ncommit seg resume ∧
+    (wrappedInteract env o seg resume [] s).2.2 = stepOutSpec env s.ncommit seg resume := by
+  obtain ⟨c, ss, p, cm, n, t⟩ := s
+  obtain ⟨h1, h2, h3⟩ := hc
+  simp only at h1 h2 h3
+  subst h1 h2 h3
+  cases resume with
+  | close => simp [wrappedInteract, rollback, Clean, stepCommits, stepOutSpec]
+  | throw e => simp [wrappedInteract, rollback, Clean, stepCommits, stepOutSpec]
+  | next =>
+    obtain ⟨ws, mc, late, fin⟩ := seg
+    cases mc <;> cases fin <;> cases ws <;> cases late <;> cases hf : env.commitFail n <;> cases hf1 : env.commitFail (n + 1) <;>
+      simp [wrappedInteract, commit, rollback, addWrites, Clean, stepCommits, stepOutSpec, commitOK, commitErr, hf, hf1]
+
+theorem iterLoop_clean (env : Env) (o : Opts) :
+    ∀ (steps : List (Seg × Resume)) (s : St), Clean s →
+      Clean (iterLoop env o steps [] s).1 ∧ s.committed <+: (iterLoop env o steps [] s).1.committed ∧
+      (iterLoop env o steps [] s).1.trace = s.trace := by
+  intro steps
+  induction steps with
+  | nil => intro s hc; exact ⟨hc, List.prefix_refl _, rfl⟩
+  | cons st rest ih =>
+    intro s hc
+    obtain ⟨seg, r⟩ := st
+    obtain ⟨h1, h2, h3, h4, _⟩ := step_spec env o seg r s hc
+    simp only [iterLoop]
+    rcases hw : wrappedInteract env o seg r [] s with ⟨s1, copy1, out⟩
+    rw [hw] at h1 h2 h3 h4
+    simp only at h1 h2 h3 h4
+    have hpre : s.committed <+: s1.committed := by rw [h4]; exact List.prefix_append _ _
+    cases out with
+    | yielded =>
+      dsimp only
+      rw [h2]
+      obtain ⟨i1, i2, i3⟩ := ih s1 h1
+      exact ⟨i1, hpre.trans i2, i3.trans h3⟩
+    | stopped => exact ⟨h1, hpre, h3⟩
+    | raised e => exact ⟨h1, hpre, h3⟩
+
+theorem iterGen_clean (env : Env) (o : Opts) (steps : List (Seg × Resume)) (s : St) (hc : Clean s) :
+    Clean (iterGen env o steps s).1 ∧ s.committed <+: (iterGen env o steps s).1.committed := by
+  unfold iterGen
+  split
+  · exact ⟨hc, List.prefix_refl _⟩
+  · exact ⟨(iterLoop_clean env o steps s hc).1, (iterLoop_clean env o steps s hc).2.1⟩
+
+/-! ### Flask -/
+
+theorem flask_eq_cm (env : Env) (view : St → St × Outcome) (s : St) (hc : Clean s) :
+    flaskRequest env true view s = cm env (defaultOpts env) view s := by
+  have h0 : (defaultOpts env).retry = 0 := rfl
+  simp only [flaskRequest, flaskEnter, cm, h0, ne_eq, not_true_eq_false, if_false, if_true, enter_clean _ s hc, flaskExit]
+
+/-! ### nothing leaks out of a top-level construct -/
+
+theorem decorated_top (env : Env) (o : Opts) (run : Nat → St → St × Outcome) (s : St) (hc : Clean s) :
+    decorated env o run s = loop env o run (o.retry + 1) 0 none s := by
+  simp [decorated, hc.1]
+
+theorem exec_clean (env : Env) (p : Prog) : ∀ s, Clean s → Clean (exec env p s).1 := by
+  induction p with
+  | skip => intro s hc; exact hc
+  | write w => intro s hc; simp [exec, hc.2.1]; exact hc
+  | mark n => intro s hc; exact hc
+  | observe => intro s hc; simp [exec, hc.2.1]; exact hc
+  | raise e => intro s hc; exact hc
+  | seq a b iha ihb =>
+    intro s hc
+    have h1 := iha s hc
+    simp only [exec]
+    rcases hr : exec env a s with ⟨s1, o1⟩
+    rw [hr] at h1
+    cases o1 with
+    | ret => exact ihb s1 h1
+    | raise e => exact h1
+  | tryCatch p c h ihp ihh =>
+    intro s hc
+    have h1 := ihp s hc
+    simp only [exec]
+    rcases hr : exec env p s with ⟨s1, o1⟩
+    rw [hr] at h1
+    cases o1 with
+    | ret => exact h1
+    | raise e =>
+      dsimp only
+      split
+      · exact ihh s1 h1
+      · exact h1
+  | withSession o p _ =>
+    intro s hc
+    simp only [exec]
+    by_cases h0 : o.retry = 0
+    · exact (cm_top env o _ s hc (exec_inner env p) h0).1
+    · simp [cm, h0]; exact hc
+  | call o f _ =>
+    intro s hc
+    simp only [exec, decorated_top env o _ s hc]
+    exact (loop_spec env o _ (fun j => exec_inner env (f j)) o.retry 0 none s hc).2.2.1
+  | iter o steps => intro s hc; exact (iterGen_clean env o steps s hc).1
+  | flask hooked view ih =>
+    intro s hc
+    cases hooked with
+    | true =>
+      simp only [exec, flask_eq_cm env _ s hc]
+      exact (cm_top env _ _ s hc (exec_inner env view) rfl).1
+    | false =>
+      simp only [exec, flaskRequest, Bool.false_eq_true, if_false, flaskExit]
+      exact ih s hc
+
+/-- what `Chain` says about each recorded execution -/
+theorem chain_all {env : Env} {o : Opts} {run : Nat → St → St × Outcome} {c : List Write} :
+    ∀ {i : Nat} {log : List Att}, Chain env o run c i log →
+      (∀ a ∈ log, Entered o a.start ∧ a.start.pending = [] ∧ a.start.committed = c) ∧
+      (∀ a ∈ log.dropLast, ∃ e, a.exc = some e ∧ doRetry env o e = .yes ∧ attCommits env o a = false) ∧
+      (∀ j (h : j < log.length), Faithful env o run c (i + j) log[j]) := by
+  intro i log hch
+  induction hch with
+  | last i a hf =>
+    refine ⟨?_, ?_, ?_⟩
+    · intro x hx
+      simp only [List.mem_singleton] at hx
+      subst hx
+      exact ⟨hf.entered, hf.pending, hf.committed⟩
+    · intro x hx; simp at hx
+    · intro j h
+      have : j = 0 := by simpa using h
+      subst this
+      simpa using hf
+  | cons i a rest hf hag _ ih =>
+    obtain ⟨ih1, ih2, ih3⟩ := ih
+    obtain ⟨e, he⟩ := hag
+    refine ⟨?_, ?_, ?_⟩
+    · intro x hx
+      rcases List.mem_cons.1 hx with rfl | hx
+      · exact ⟨hf.entered, hf.pending, hf.committed⟩
+      · exact ih1 x hx
+    · intro x hx
+      cases rest with
+      | nil => simp at hx
+      | cons y ys =>
+        rw [List.dropLast_cons_cons] at hx
+        rcases List.mem_cons.1 hx with rfl | hx
+        · exact ⟨e, (again_spec he).1, (again_spec he).2, again_not_commits hf he⟩
+        · exact ih2 x hx
+    · intro j h
+      cases j with
+      | zero => simpa using hf
+      | succ k =>
+        have hk : k < rest.length := by simpa using h
+        have := ih3 k hk
+        simpa [Nat.add_assoc, Nat.add_comm 1 k] using this
+
 end PonyVerif.Model.DbSession
